@@ -8,7 +8,7 @@ import os
 import sys
 
 rnd = int(sys.argv[1])
-letters = {2: "ab", 3: "cd", 4: "ef", 5: "gh"}[rnd]
+letters = {2: "ab", 3: "cd", 4: "ef", 5: "gh", 6: "ij", 7: "kl"}[rnd]
 root = os.path.join(os.path.dirname(os.path.abspath(__file__)), "..")
 props = [json.loads(l) for l in open(os.path.join(root, "properties.jsonl")) if l.strip()]
 ids = [p["id"] for p in props]
